@@ -75,7 +75,10 @@ UNSUPPORTED = [
     "   ",
 ]
 SETS = ["SET x = 1;", "SET ANSI_NULLS ON;", "set y 2 ;"]
-LINES = SUPPORTED + UNSUPPORTED + SETS
+# appended later (indices of the lines above are used by obligations): skipped statements without a terminating ';'
+# (T-SQL style, followed by GO in practice) and further unsupported statements
+EXTRA = ["INSERT INTO t VALUES (1)", "TRUNCATE TABLE t;", "DELETE FROM t", "MERGE INTO t USING s ON t.a = s.a;"]
+LINES = SUPPORTED + UNSUPPORTED + SETS + EXTRA
 NL = len(LINES)
 NSUP = len(SUPPORTED)
 
